@@ -7,7 +7,7 @@
    Gen/MapSites.v lists no go/select statement there).  [cur] is the class
    assignment the translator derived from the CURRENT Go source. *)
 From Coq Require Import NArith List Bool String Permutation.
-From Mpc Require Import Gen.MapSites Lang.Determ Lang.DetermSites Lang.DetermProof Lang.DetermF5 Lang.RunC08.
+From Mpc Require Import Gen.MapSites Lang.Determ Lang.DetermSites Lang.DetermProof Lang.DetermF5 Lang.Hist Lang.HistProof Lang.RunC08.
 Import ListNotations.
 Open Scope string_scope.
 Open Scope list_scope.
@@ -107,6 +107,48 @@ Theorem C08_history_independent : forall cls o cs cs' fs main,
 Proof. exact compile_in_history_independent. Qed.
 Print Assumptions C08_history_independent.
 
+(* Histories, general form: for EVERY compilation step (params object, Compiler
+   state, source -> params, state, output) that (a) leaves the params object as
+   it was and (b) whose output does not depend on the Compiler state, for all
+   histories, params objects and sources, with the same or a new Compiler: the
+   output after the history (same params object) is the output of a fresh
+   compilation.  Hypothesis (a) - the configuration is read-only - is explicit;
+   on the implementation it is discharged by C08_params_readonly (static: no
+   reachable write to a utils.Params field) and, every run, by the harness
+   (snapshot of all exported Params fields before/after each compilation, key
+   c08:params-mutated-by-compilation:<field>; program pairs A;B with a shared
+   Params object, key c08:history:shared-params:..). *)
+Theorem C08_history_independent_general :
+  forall (P S X O : Type) (step : P -> S -> X -> P * S * O),
+    params_readonly P S X O step -> state_irrelevant P S X O step ->
+    forall (same_compiler : bool) (s0 : S) (hist : list X) (p : P) (x : X),
+      after P S X O step same_compiler s0 hist p x = fresh P S X O step s0 p x.
+Proof. exact history_independent. Qed.
+Print Assumptions C08_history_independent_general.
+
+(* instance: the model of Lang/Determ.v (its configuration is a function
+   argument that compile_in does not return) after any history *)
+Theorem C08_compile_history_independent : forall same_compiler hist cfg x,
+    after _ _ _ _ step_compile same_compiler cs0 hist cfg x = compile (fst cfg) (snd cfg) x.
+Proof. exact compile_history_independent. Qed.
+Print Assumptions C08_compile_history_independent.
+
+(* instance: the array-multiplier threshold selection of NewMultiplier over the
+   regenerated tuning table, after any history *)
+Theorem C08_mult_threshold_history_independent : forall same_compiler hist p x,
+    after _ _ _ _ step_mult same_compiler tt hist p x = fresh _ _ _ _ step_mult tt p x.
+Proof. exact mult_history_independent. Qed.
+Print Assumptions C08_mult_threshold_history_independent.
+
+(* REFUTED without hypothesis (a): a getter that stores its default into the
+   params object - after a multiplication of an untuned width, a tuned width is
+   built with another threshold *)
+Theorem C08_storing_getter_history_refuted :
+  exists (hist : list (list nat)) (p : params) (x : list nat),
+    after _ _ _ _ step_mult_storing false tt hist p x <> fresh _ _ _ _ step_mult_storing tt p x.
+Proof. exact storing_getter_history_refuted. Qed.
+Print Assumptions C08_storing_getter_history_refuted.
+
 (* -------- obligations on the regenerated inventory (finite: vm_compute on Gen/MapSites.v) -------- *)
 
 (* Every map-range site on the compile path is SortedAfter, LookupOnly or
@@ -121,6 +163,13 @@ Theorem C08_readdir_sites_insensitive :
   forallb (fun s => negb (is_order_sensitive s)) MapSites.readdir_sites = true.
 Proof. exact readdir_sites_insensitive. Qed.
 Print Assumptions C08_readdir_sites_insensitive.
+
+(* The configuration is read-only during a compilation: no assignment to a field
+   of utils.Params (or below one) is reachable from the compile roots, except the
+   documented symbol table of the intern() builtin.  A new write breaks this. *)
+Theorem C08_params_readonly : forallb param_write_allowed MapSites.param_writes = true.
+Proof. exact params_readonly_inventory. Qed.
+Print Assumptions C08_params_readonly.
 
 (* no go/select statement is reachable from the compile entry points *)
 Theorem C08_no_goroutines : MapSites.go_sites = [].
